@@ -221,6 +221,7 @@ func runC17(e *Engine, r *Report) {
 	ruleCampaignPredicateUpper(e, r)
 	ruleDelayedRepack(e, r)
 	ruleResetProgress(e, r)
+	ruleRemoveRecommits(e, r)
 	ruleConfigChangeClearsPending(e, r)
 	ruleSendQueueWorkerCleanup(e, r)
 	rulePoisonBlocking(e, r)
